@@ -604,8 +604,97 @@ def replay_decode(r):
     return {"reproduced": False, "detail": f"real Contract decodes all {res['cases']} enumerated byte strings like the reference"}
 
 
+def init_cases():
+    """Contract.__init__ establishes the invariant the fast paths rely on: `_fastcode` is exactly the bytes of the first
+    chunk (a chunk is a *window* into its backing data) when that chunk is concrete, else None"""
+    from pyvc.interp import GhostData
+    from halmos.bytevec import ConcreteChunk, SymbolicChunk
+
+    out = []
+    for L in (1, 3):
+        for whole in (False, True):
+
+            def harness(interp, L=L, whole=whole):
+                ctx = interp.ctx
+                s0 = SymInt(z3.Int("chunk_start"))
+                n = SymInt(z3.Int("data_len"))
+                ctx.assume(z3.And(s0.e >= 0, s0.e + L <= n.e))
+                if whole:
+                    ctx.assume(z3.And(s0.e == 0, n.e == L))
+                else:
+                    ctx.assume(n.e > L)
+                data = GhostData("backing", n)
+                ch = object.__new__(ConcreteChunk)
+                ch.data, ch.start, ch.length, ch.data_byte_length = data, s0, L, n
+                code = ByteVec()
+                code.chunks[0] = ch
+                code.length = L
+                c = object.__new__(hc.Contract)
+                interp.call(hc.Contract.__dict__["__init__"], [c, code], {})
+                f = c._fastcode
+                ok = isinstance(f, GhostData)
+                ctx.oblige("a code whose first chunk is concrete gets a concrete prefix", z3.BoolVal(ok and c._code is code), info={"type": type(f).__name__})
+                if ok:
+                    ctx.oblige("the concrete prefix has the length of the first chunk", iexpr(f.n) == L)
+                    ctx.oblige("byte k of the concrete prefix is byte k of the first chunk, i.e. byte start+k of its backing data", z3.And(*[f.byte_expr(z3.IntVal(k)) == data.byte_expr(s0.e + k) for k in range(L)]))
+                ctx.oblige("the decode cache has one slot per code byte and no jump destinations are cached yet", z3.BoolVal(len(c._insn) == L and all(x is None for x in c._insn) and c._jumpdests is None))
+
+            out.append(Case(f"{PROP}/contract.Contract.__init__", f"first chunk = window of {L} byte(s) " + ("covering its whole backing data" if whole else "inside larger backing data"), harness, replay=replay_init_window, sources=("halmos.contract:Contract.__init__", "halmos.bytevec:ConcreteChunk.unwrap")))
+
+    def harness_symbolic(interp):
+        ctx = interp.ctx
+        code = ByteVec(z3.BitVec("symcode", 64))
+        c = object.__new__(hc.Contract)
+        interp.call(hc.Contract.__dict__["__init__"], [c, code], {})
+        ctx.oblige("a code that starts with symbolic bytes has no concrete prefix", z3.BoolVal(c._fastcode is None and len(c._insn) == 8))
+        c2 = object.__new__(hc.Contract)
+        interp.call(hc.Contract.__dict__["__init__"], [c2, ByteVec()], {})
+        ctx.oblige("empty code: no concrete prefix, no decode slots", z3.BoolVal(c2._fastcode is None and c2._insn == []))
+
+    out.append(Case(f"{PROP}/contract.Contract.__init__", "symbolic first chunk; empty code", harness_symbolic, sources=("halmos.contract:Contract.__init__",)))
+    return out
+
+
+def replay_init_window(r):
+    big = ByteVec(bytes([0x60, 0x5B, 0x00, 0x5B, 0x01]))
+    win = big.slice(2, 4)  # the two bytes 00 5b: a chunk window with start 2 inside a 5-byte buffer
+    c = hc.Contract(win)
+    got = [c[0], c[1]]
+    dests = sorted(c.valid_jumpdests())
+    if got != [0x00, 0x5B] or dests != [1]:
+        return {"reproduced": True, "detail": f"Contract(ByteVec(60 5b 00 5b 01).slice(2, 4)): code bytes read as {[hex(x) if isinstance(x, int) else str(x) for x in got]} (expected 0x0, 0x5b) and valid jump destinations {dests} (expected [1])", "inputs": "Contract over a chunk window with start 2"}
+    return {"reproduced": False, "detail": "a Contract built over a chunk window reads the window's bytes"}
+
+
+def replay_jumpdest_cache(r):
+    """real SEVM.run with --symbolic-jump: a symbolic jump must not change which destinations of the code are valid"""
+    import halmos.bitvec as hb
+    from contracts.common import mk_ex, mk_sevm
+
+    sevm = mk_sevm(symbolic_jump=True)
+    # 0: PUSH1 5; 2: AND; 3: JUMP; 4: JUMPDEST; 5: JUMPDEST; 6: PUSH1 0x0a; 8: JUMP; 9: INVALID; 10: JUMPDEST; 11: STOP
+    code = bytes([0x60, 5, 0x16, 0x56, 0x5B, 0x5B, 0x60, 0x0A, 0x56, 0xFE, 0x5B, 0x00])
+    ex = mk_ex(sevm, code)
+    ex.st.stack.append(hb.HalmosBitVec(z3.BitVec("w", 256)))
+    before = sorted(ex.pgm.valid_jumpdests())
+    try:
+        outs = list(sevm.run(ex))
+    except Exception as e:  # noqa
+        return {"reproduced": None, "detail": f"replay could not run: {type(e).__name__}: {e}"}
+    after = sorted(ex.pgm.valid_jumpdests())
+    errs = [type(o.context.output.error).__name__ for o in outs if o.context.output.error is not None]
+    if after != before or "InvalidJumpDestError" in errs and 10 in before:
+        bad = [o for o in outs if type(o.context.output.error).__name__ == "InvalidJumpDestError"]
+        return {"reproduced": True, "detail": f"program (w & 5) JUMP ... PUSH1 0x0a JUMP ... JUMPDEST@10 with --symbolic-jump: valid destinations of the code were {before} before the run and are {after} after it; {len(bad)} path(s) end with InvalidJumpDestError although the concrete jump to 10 is valid", "inputs": code.hex()}
+    return {"reproduced": False, "detail": "the code's valid destinations are unchanged by a symbolic jump"}
+
+
 def build_cases(tier="quick"):
-    return insn_len_cases() + jumpdest_cases() + valid_jumpdests_cases() + decode_past_end_cases() + decode_cases() + jump_check_cases()
+    # the symbolic-JUMP arm (C02 pack): successors only at valid destinations, and the shared cached destination set is not modified
+    from contracts import c02
+
+    ref = [Case(f"{PROP}/sevm.SEVM.run#JUMP-symbolic", c.case, c.harness, replay=replay_jumpdest_cache, sources=c.sources) for c in c02.symbolic_jump_cases()]
+    return insn_len_cases() + jumpdest_cases() + valid_jumpdests_cases() + decode_past_end_cases() + decode_cases() + init_cases() + jump_check_cases() + ref
 
 
 # --------------------------------------------------------------------------------------
